@@ -488,7 +488,7 @@ void HttpRequest::read()
 		pathend = q;
 	}
 
-	_path = Url::decode(_res.substring(0, pathend));
+	_path = Url::decode(_res.substring(0, pathend)).fix(); // a decoded NUL ends the path: what follows it would be hidden from the ".." test
 
 	if(_path.contains(".."))
 		_path = _path.replace("..", "");
